@@ -750,7 +750,9 @@ class Emitter:
         if op == 'lshr':
             if w64: return 'LSHR64(%s, %s)' % (a, b)
             return '((%s)(%s >> %s))' % (ct, a, b)
-        if op == 'ashr': return '((%s)((%s)%s >> %s))' % (ct, st, a, b)
+        if op == 'ashr':
+            if w64: return 'ASHR64(%s, %s)' % (a, b)
+            return '((%s)((%s)%s >> %s))' % (ct, st, a, b)
         raise ValueError(op)
 
     def icmp(s, ins):
